@@ -64,6 +64,10 @@ fn make_tx(phase: bool, fixed: bool, value: u16, initial: u8) -> (CPUEmulator, V
     (cpu, tx, emu)
 }
 
+fn gcd(a: u32, b: u32) -> u32 {
+    if b == 0 { a } else { gcd(b, a % b) }
+}
+
 fn circ(a: u8, b: u8) -> u32 {
     let d = (a as i32 - b as i32).unsigned_abs();
     d.min(256 - d)
@@ -298,6 +302,31 @@ pub fn run(args: &Args) {
         let segs: Vec<(u8, u32)> = (0..12).map(|_| (rng.below(256) as u8, rng.range(1, v as u64 + 2) as u32)).collect();
         history(&mut ctx, phase, false, v, rng.below(256) as u8, &segs, "interrupted");
         ctx.out.count("interrupted-histories");
+    }
+    // interrupted exactly on the value the filter shows: a transition a -> b is stopped after k updates by the new
+    // target "where the output is now" (with step sizes that leave no fraction the internal value equals it), then a
+    // fresh step to p follows: it must behave like a step from a settled filter (the remembered target must be the
+    // interrupting one, not b)
+    for _ in 0..(if thorough { 1500 } else { 250 }) {
+        let phase = rng.chance(1, 2);
+        let v = *rng.pick(&[1u16, 2, 4, 5, 8, 10, 16, 20, 32, 40, 64, 100, 128, 200, 256, 512]);
+        let a = rng.below(256) as u8;
+        // a distance whose per-update step is a whole number of internal units times 1/256: d*256 % v == 0
+        let g = (v as u32) / gcd(v as u32, 256);
+        let d = (g * rng.range(1, (255 / g.max(1)).max(1) as u64) as u32).min(255) as u8;
+        let b = if rng.chance(1, 2) { a.wrapping_add(d) } else { a.wrapping_sub(d) };
+        let k = rng.range(1, v as u64) as u32;
+        let o = {
+            let (_, mut e) = make(phase, false, v, a);
+            let mut last = a;
+            for _ in 0..k {
+                last = e.apply(b);
+            }
+            last
+        };
+        let pnext = rng.below(256) as u8;
+        history(&mut ctx, phase, false, v, a, &[(b, k), (o, 1), (pnext, v as u32 + 1), (a, v as u32 + 1)], "interrupted-on-output");
+        ctx.out.count("interrupted-on-output-histories");
     }
     // fixed update rate mode
     for _ in 0..(if thorough { 600 } else { 80 }) {
